@@ -6,6 +6,95 @@ import os
 ROOT = os.path.dirname(os.path.dirname(os.path.abspath(__file__)))
 
 CHECKS = {
+    "C03": dict(
+        technique="Coq model of the SEQUENCE/SET presence machinery (theorems in Props/C03.v) + bounded-exhaustive differential correspondence with a reference preamble encoder",
+        text="Gallina model of Scope/write_into_field/read_from_field, write_opt/default and the generated field walk with the theorems of "
+             "Props/C03.v; tied to /repo by running every shape with <= 3 (quick) / <= 5 (thorough) components x kinds x marker position x "
+             "presence pattern through the real UperWriter/UperReader, judged by an independent reference encoder of the preamble, decode "
+             "equality and the exact-refusal oracle.",
+        note="Trusted: Coq kernel, extraction + driver, harness, Python reference encoder; descriptor constants derived from the shape as "
+             "the compiler does (checked by C08/C16); a marker before the first component is not expressible in the crate (F16-2).",
+        design="6 (C03)"),
+    "C04": dict(
+        technique="Coq model with every partial Rust operation an explicit Panic outcome (theorems in Props/C04.v, C10 no-panic theorems) + differential correspondence on random and mutated inputs under memory/time limits",
+        text="Reader halves of the model (UPER L0-L2, DER primitives, protobuf reader) with explicit Panic outcomes for indexing, "
+             "arithmetic, allocation and unwrap; proved no-panic statements for the PER primitive readers (Props/C10.v), DER model has no "
+             "Panic constructor reachable; tied to /repo by differential execution on random bytes and mutated valid encodings for 80 zoo "
+             "types (UPER), the DER primitives and the protobuf zoo, the child running under RLIMIT_AS and a time limit.",
+        note="Partial: wall-clock hang and real allocation are bounded as requested work in the model and observed only by the tie; "
+             "known findings F04-1..3. Trusted: Coq kernel, extraction + driver, harness with catch_unwind, process supervision.",
+        design="6 (C04)"),
+    "C05": dict(
+        technique="Coq model of the reader over schema pairs + differential correspondence (write under A, read under B, sentinel after the message)",
+        text="The L2 reader model includes the transmitted-count presence range and the skipping of unknown additions; schema pairs "
+             "(V1, V2 = V1 + k additions, CHOICE/ENUMERATED extension pairs) are run in both directions through the real writer/reader "
+             "with a trailing sentinel and judged by an oracle computed from the pair; model and crate compared line by line.",
+        note="Trusted: Coq kernel, extraction + driver, harness, Python oracle. Two genuine defects found here were repaired (fix: commits 546b054, 543a356).",
+        design="6 (C05)"),
+    "C06": dict(
+        technique="Coq proofs of rejection for every PER primitive (Props/C10.v *_reject) + L2 model + differential correspondence with a sat() oracle",
+        text="Rejection theorems for constrained/semi-constrained numbers, indices, sizes (Props/C10.v) and the L2 writer model; values with "
+             "exactly one violated constraint at a random nesting position (range, size, alphabet position classes, index) are run through "
+             "the real writer; oracle: non-extensible violation => constraint error, extensible => accepted and round-trips.",
+        note="Trusted: Coq kernel, extraction + driver, harness, Python sat() oracle; the F10-1 size family is exempted where the writer rejects lb <= n < 2*lb.",
+        design="6 (C06)"),
+    "C07": dict(
+        technique="Coq model of the recursive-descent parser + print/parse theorems for sub-languages (partial) + differential correspondence with an independent canon(A) oracle",
+        text="Function-for-function fuelled Gallina model of asn/model.rs and asn/*.rs producing the same model dump as the crate (tie is real: "
+             "0 disagreements), print->parse theorems for Tag, SIZE, INTEGER ranges and named numbers (Props/C07.v, _partial names), refutation "
+             "witnesses for 10 deviation classes; grammar-based generator of abstract modules with layout variation, judged by canon(A) computed "
+             "independently in Python.",
+        note="Partial: ENUMERATED, literals, OIDs, imports, component/CHOICE/OF grammar and module level are covered by tie + oracle only; 17 known findings (F07-*).",
+        design="6 (C07)"),
+    "C08": dict(
+        technique="Coq proof of printer/parser inversion for the attribute type sub-language (partial) + differential correspondence of to_rust -> generator -> attribute parser",
+        text="C08_reparse_type_partial / C08_reparse_type_in_context over a model of asn_attribute_type and proc_macro/{attribute,range,size,tag}.rs; "
+             "the real pipeline (to_rust -> RustCodeGenerator -> parse_asn_definition/expand) is run on ~3000 definitions (templates, random grammar, "
+             "every module text found in /repo) and judged by R1 == R2 and by descriptor constants recomputed independently from the abstract module.",
+        note="Partial: attribute/item level, composition with to_rust, expansion constants and proc_macro2 lexing are tie + oracle only; 20 known findings (F08-*).",
+        design="6 (C08)"),
+    "C09": dict(
+        technique="Coq proofs about name mangling and keyword escaping against the generated KEYWORDS table (partial) + cargo check of generated zoos",
+        text="C09_field_idents_legal (all X.680 identifiers), C09_keywords_complete (proved against gen/consts.py's copy of KEYWORDS), variant/type "
+             "identifier legality outside the Self class, collision witnesses; the mangling model is tied to the crate's functions; a fixed zoo of "
+             "126 modules (every keyword at 11 positions, collision pairs, case/separator variants) is generated by the real crate and compiled with "
+             "cargo check, rustc diagnostics classified.",
+        note="Partial (DESIGN section 8): derives, type/borrow checking of generated bodies and constants are checked by rustc only; 18 known findings (F09-*).",
+        design="6 (C09)"),
+    "C12": dict(
+        technique="Coq model of the resolver + lookup-level substitution theorems (partial) + differential correspondence of referencing vs literal variants",
+        text="Gallina model of resolve.rs/resolve_scope.rs (local first, first import listing the name, OID match) with C12_subst_*_partial, "
+             "C12_unresolved_is_error, C12_non_integer_is_error, C12_negative_size_is_error; literals hoisted into value references (local / sibling "
+             "module with/without OID, shuffled load order, dangling and wrong-kind references) and compared through the real MultiModuleResolver.",
+        note="Partial: lifting over the whole AST and load-order irrelevance are tie + oracle only; known findings F12-1..3.",
+        design="6 (C12)"),
+    "C14": dict(
+        technique="Coq totality theorems for tokenizer and parser productions (partial) + differential correspondence on mutated modules and token soups under process supervision",
+        text="C14_lex_total_partial (tokenizer never errs, panics only in the documented class), C14_parse_total_partial (no Panic / no fuel exhaustion for "
+             "tag, size, OID, imports, enumerated productions); 12 000 (quick) mutated modules and token soups through tokenizer -> parser -> resolver -> "
+             "to_rust -> to_protobuf with per-stage outcome, model and crate compared, oracle: no panic/hang except the sanctioned one.",
+        note="Partial: fuel sufficiency of the recursive type grammar, error-carries-token and totality of resolve/to_rust/to_protobuf are tie + oracle only; "
+             "non-ASCII char classification outside the model; known findings F14-1, F14-2.",
+        design="6 (C14)"),
+    "C17": dict(
+        technique="Coq proofs for the protobuf primitives (all u64/i64) and flat messages (partial) + differential correspondence on a 20-type zoo, both writer back ends",
+        text="C17_varint/zigzag/tag/number_roundtrip (full), C17_roundtrip_partial, C17_roundtrip_flat_partial, C17_backends_agree_partial over a model of "
+             "protocol/protobuf and rw/proto_{write,read}.rs; zoo values through the real writer (Vec and fixed slice) and reader, judged by a Python "
+             "ProtobufEq oracle and byte equality of the back ends.",
+        note="Partial: the full type induction is not proved; known findings F17-1..6.",
+        design="6 (C17)"),
+    "C18": dict(
+        technique="Coq reference proto3 decoder + numbering theorem + protoc as second independent decoder in the tie",
+        text="C18_numbers_match (full), C18_decodes_under_schema_partial, C18_schema_valid_partial; the generated .proto is validated and the writer's bytes are "
+             "decoded by /usr/bin/protoc and by the Coq reference decoder pb_decode, both compared with the value.",
+        note="Partial: 'valid proto3' relative to a transcribed grammar subset; protoc (3.21.12, system tool) only confronts generated samples; known findings F18-1..4.",
+        design="6 (C18)"),
+    "C19": dict(
+        technique="Erasure by construction (model without diagnostics state) + both feature builds tied to the one model and to each other",
+        text="The reader model carries no diagnostics; both builds (default, descriptive-deserialize-errors; dev and release) are compared with the model "
+             "and with each other on the C04 UPER input set plus round trips; a syntactic audit lists every cfg-gated block of rw/uper.rs.",
+        note="The theorem is about the model; what ties both real builds to it is the correspondence run twice (DESIGN section 6 C19).",
+        design="6 (C19)"),
     "C01": dict(
         technique="Coq model of the UPER writer/reader + round-trip oracle over differential correspondence (theorems in Props/C01.v)",
         text="Gallina model of rw/uper.rs (Scope state machine, presence-bit back-patching, open-type wrapping, every write_*/read_* "
@@ -73,6 +162,7 @@ CHECKS = {
 }
 
 NOT_YET = {
+    "C02": "check under construction in this round: X.691 type-level reference (Uper/Spec.v) and the compiler-constants tie are planned in DESIGN.md section 6 (C02); not claimed until its check exists",
 }
 
 
